@@ -234,6 +234,9 @@ class Engine:
                 k, s = v.sources[0]
                 if k == 'list':
                     return self.term(s, st, escape)
+                if k in ('keys', 'values', 'items'):
+                    # dict views used as values (e.g. compared with ==): modelled as the list of keys / values / pairs in order
+                    return V.List(self.src_seq(k, s, st)), st
             raise OutOfSubset("iterator used as a value")
         raise OutOfSubset(f"cannot freeze {type(v).__name__}")
 
@@ -287,6 +290,7 @@ class Engine:
             elif n == 'dict': tests.append(V.is_Dict(v))
             elif n == 'tuple': tests.append(V.is_Tuple(v))
             elif n == 'set': tests.append(V.is_Set(v))
+            elif n == 'bytes': tests.append(z3.And(V.is_Other(v), other_is_bytes(V.oid(v))))
             elif n == 'partial': tests.append(z3.And(V.is_Fun(v), lookup(V.fbound(v), S('__partial__')) != V.Missing))
             elif n in self.T.cid: tests.append(self.is_instance_of(v, n))
             else: raise OutOfSubset(f"isinstance against {n}")
@@ -2098,6 +2102,7 @@ class LoopContract:
 obj_eq = z3.Function('obj_eq', V, V, BoolS)         # __eq__ of two objects that are not identical
 _obj_bool = z3.Function('obj_bool', V, BoolS)        # __bool__/__len__ based truthiness of an object
 str_concat = z3.Function('str_concat', IntS, IntS, IntS)
+other_is_bytes = z3.Function('other_is_bytes', IntS, BoolS)   # opaque values that are bytes objects
 
 
 def VAL_obj_bool(v):
@@ -2120,7 +2125,7 @@ def fun_key(k):
 
 
 INLINE = set()
-CONTAINER_ATTRS = {'bit_length', 'append', 'extend', 'get', 'items', 'keys', 'values', 'pop', 'setdefault', 'add', 'update', 'startswith',
+CONTAINER_ATTRS = {'popitem', 'bit_length', 'append', 'extend', 'get', 'items', 'keys', 'values', 'pop', 'setdefault', 'add', 'update', 'startswith',
                    'endswith', 'join', 'format', 'lower', 'upper', 'split', 'strip', 'copy', 'index', 'count', 'insert', 'remove', 'encode', 'decode', 'replace'}
 
 from .builtins import BUILTINS, EXTERNALS, METHODS  # noqa: E402  (models of builtins; needs the classes above)
